@@ -5,7 +5,7 @@
 (* lines the real analyze_for_* returned.  For every detector of the mode    *)
 (* the reported set must lie between MustLines and MayLines (Patterns.tla).  *)
 (***************************************************************************)
-EXTENDS Patterns, Json, IOUtils, SequencesExt
+EXTENDS RefDetect, Json, IOUtils, SequencesExt
 
 Rec  == ndJsonDeserialize(IOEnv.TRACE)
 Mode == IOEnv.MODE
@@ -14,15 +14,15 @@ Dets == CASE Mode = "C05" -> C05Detectors [] Mode = "C06" -> C06Detectors
           [] Mode = "C07" -> C07Detectors [] Mode = "C08" -> C08Detectors
           [] OTHER -> C05Detectors \cup C06Detectors \cup C07Detectors \cup C08Detectors
 
-VARIABLES l, bad, exercised
-vars == <<l, bad, exercised>>
+VARIABLES l, bad, exercised, inconsistent
+vars == <<l, bad, exercised, inconsistent>>
 
 \* verdicts of the detectors of the mode that the record carries results for
 Bad(r) == {d \in Dets \cap DOMAIN r.results : Verdict(d, r.tree, SetOf(r.results[d])) \in {"missed", "spurious"}}
 \* the record exercises the property: some detector of the mode has a canonical occurrence in it
 Exercises(r) == \E d \in Dets \cap DOMAIN r.results : MustLines(d, r.tree) # {} /\ Verdict(d, r.tree, SetOf(r.results[d])) # "outside-domain"
 
-Init == l = 1 /\ bad = <<>> /\ exercised = 0
+Init == l = 1 /\ bad = <<>> /\ exercised = 0 /\ inconsistent = <<>>
 Next == /\ l <= Len(Rec)
         /\ l' = l + 1
         /\ LET r == Rec[l]
@@ -31,6 +31,8 @@ Next == /\ l <= Len(Rec)
            IN /\ bad' = IF B = {} \/ Len(bad) >= 400 THEN bad
                         ELSE bad \o [i \in 1 .. Len(bs) |-> <<l, bs[i] \o ":" \o Verdict(bs[i], r.tree, SetOf(r.results[bs[i]]))>>]
               /\ exercised' = IF Exercises(r) THEN exercised + 1 ELSE exercised
+              \* the declarative bounds and the reference designs must agree on every tree (else the SPECIFICATION is wrong)
+              /\ inconsistent' = IF RefConsistent(r.tree) \/ Len(inconsistent) >= 20 THEN inconsistent ELSE Append(inconsistent, l)
 Spec == Init /\ [][Next]_vars
-Report == (l = Len(Rec) + 1) => PrintT(<<"TVRESULT", ToJson([n |-> Len(Rec), bad |-> bad, exercised |-> exercised])>>)
+Report == (l = Len(Rec) + 1) => PrintT(<<"TVRESULT", ToJson([n |-> Len(Rec), bad |-> bad, exercised |-> exercised, inconsistent |-> inconsistent])>>)
 =============================================================================
